@@ -1,6 +1,7 @@
 (* Properties_C15.v -- C15: non-semantic configuration macros never change results.
    Every trace translation unit of the operation table (common functions, geometric, quaternion/Euler, quaternion
-   interpolation, transforms, relational/epsilon, colour space: the catalogues of C11, C12, C04, C13, C09, C14, C19) is
+   interpolation, transforms, relational/epsilon, colour space: the catalogues of C11, C12, C04, C13, C09, C14, C19, and a catalogue of 122 vector / matrix / quaternion constructors and conversions,
+   whose pre-C++11 bodies are separate code) is
    re-translated from GLM's templates under each configuration; the theorems say that the regenerated catalogue is IDENTICAL,
    decision tree by decision tree, to the one of the default configuration: the same floating-point operations in the same
    order on the same operands, hence bit-identical results on every input.  Under GLM_FORCE_CXX98 / CXX03 the common-function
@@ -10,6 +11,7 @@
 Require Import ZArith List String Bool Reals.
 Import ListNotations.
 From GLMV Require Import Expr Cat SemR SemN.
+From W Require Gen_C15_ctor_default Gen_C15_ctor_cxx98 Gen_C15_ctor_cxx03 Gen_C15_ctor_cxx11 Gen_C15_ctor_cxx14 Gen_C15_ctor_std11 Gen_C15_ctor_std14 Gen_C15_ctor_inline Gen_C15_ctor_explicit_ctor Gen_C15_ctor_ctor_init Gen_C15_ctor_size_t_length Gen_C15_ctor_xyzw_only Gen_C15_ctor_swizzle Gen_C15_ctor_unrestricted Gen_C15_ctor_quat_wxyz Gen_C15_ctor_aligned Gen_C15_ctor_compiler_unknown Gen_C15_ctor_platform_unknown Gen_C15_ctor_arch_unknown Gen_C15_ctor_pure Gen_C15_ctor_silent.
 From W Require A_C15_defs P_C15_fallbacks Gen_C15_c11_default Gen_C15_c11_cxx98 Gen_C15_c11_cxx03 Gen_C15_c11_cxx11 Gen_C15_c11_cxx14 Gen_C15_c11_std11 Gen_C15_c11_std14 Gen_C15_c11_inline Gen_C15_c11_explicit_ctor Gen_C15_c11_ctor_init Gen_C15_c11_size_t_length Gen_C15_c11_xyzw_only Gen_C15_c11_swizzle Gen_C15_c11_unrestricted Gen_C15_c11_quat_wxyz Gen_C15_c11_aligned Gen_C15_c11_compiler_unknown Gen_C15_c11_platform_unknown Gen_C15_c11_arch_unknown Gen_C15_c11_pure Gen_C15_c11_silent Gen_C15_c12_default Gen_C15_c12_cxx98 Gen_C15_c12_cxx03 Gen_C15_c12_cxx11 Gen_C15_c12_cxx14 Gen_C15_c12_std11 Gen_C15_c12_std14 Gen_C15_c12_inline Gen_C15_c12_explicit_ctor Gen_C15_c12_ctor_init Gen_C15_c12_size_t_length Gen_C15_c12_xyzw_only Gen_C15_c12_swizzle Gen_C15_c12_unrestricted Gen_C15_c12_quat_wxyz Gen_C15_c12_aligned Gen_C15_c12_compiler_unknown Gen_C15_c12_platform_unknown Gen_C15_c12_arch_unknown Gen_C15_c12_pure Gen_C15_c12_silent Gen_C15_c04_default Gen_C15_c04_cxx98 Gen_C15_c04_cxx03 Gen_C15_c04_cxx11 Gen_C15_c04_cxx14 Gen_C15_c04_std11 Gen_C15_c04_std14 Gen_C15_c04_inline Gen_C15_c04_explicit_ctor Gen_C15_c04_ctor_init Gen_C15_c04_size_t_length Gen_C15_c04_xyzw_only Gen_C15_c04_swizzle Gen_C15_c04_unrestricted Gen_C15_c04_quat_wxyz Gen_C15_c04_aligned Gen_C15_c04_compiler_unknown Gen_C15_c04_platform_unknown Gen_C15_c04_arch_unknown Gen_C15_c04_pure Gen_C15_c04_silent Gen_C15_c13_default Gen_C15_c13_cxx98 Gen_C15_c13_cxx03 Gen_C15_c13_cxx11 Gen_C15_c13_cxx14 Gen_C15_c13_std11 Gen_C15_c13_std14 Gen_C15_c13_inline Gen_C15_c13_explicit_ctor Gen_C15_c13_ctor_init Gen_C15_c13_size_t_length Gen_C15_c13_xyzw_only Gen_C15_c13_swizzle Gen_C15_c13_unrestricted Gen_C15_c13_quat_wxyz Gen_C15_c13_aligned Gen_C15_c13_compiler_unknown Gen_C15_c13_platform_unknown Gen_C15_c13_arch_unknown Gen_C15_c13_pure Gen_C15_c13_silent Gen_C15_c09_default Gen_C15_c09_cxx98 Gen_C15_c09_cxx03 Gen_C15_c09_cxx11 Gen_C15_c09_cxx14 Gen_C15_c09_std11 Gen_C15_c09_std14 Gen_C15_c09_inline Gen_C15_c09_explicit_ctor Gen_C15_c09_ctor_init Gen_C15_c09_size_t_length Gen_C15_c09_xyzw_only Gen_C15_c09_swizzle Gen_C15_c09_unrestricted Gen_C15_c09_quat_wxyz Gen_C15_c09_aligned Gen_C15_c09_compiler_unknown Gen_C15_c09_platform_unknown Gen_C15_c09_arch_unknown Gen_C15_c09_pure Gen_C15_c09_silent Gen_C15_c14_default Gen_C15_c14_cxx98 Gen_C15_c14_cxx03 Gen_C15_c14_cxx11 Gen_C15_c14_cxx14 Gen_C15_c14_std11 Gen_C15_c14_std14 Gen_C15_c14_inline Gen_C15_c14_explicit_ctor Gen_C15_c14_ctor_init Gen_C15_c14_size_t_length Gen_C15_c14_xyzw_only Gen_C15_c14_swizzle Gen_C15_c14_unrestricted Gen_C15_c14_quat_wxyz Gen_C15_c14_aligned Gen_C15_c14_compiler_unknown Gen_C15_c14_platform_unknown Gen_C15_c14_arch_unknown Gen_C15_c14_pure Gen_C15_c14_silent Gen_C15_c19_default Gen_C15_c19_cxx98 Gen_C15_c19_cxx03 Gen_C15_c19_cxx11 Gen_C15_c19_cxx14 Gen_C15_c19_std11 Gen_C15_c19_std14 Gen_C15_c19_inline Gen_C15_c19_explicit_ctor Gen_C15_c19_ctor_init Gen_C15_c19_size_t_length Gen_C15_c19_xyzw_only Gen_C15_c19_swizzle Gen_C15_c19_unrestricted Gen_C15_c19_quat_wxyz Gen_C15_c19_aligned Gen_C15_c19_compiler_unknown Gen_C15_c19_platform_unknown Gen_C15_c19_arch_unknown Gen_C15_c19_pure Gen_C15_c19_silent.
 Import A_C15_defs.
 Local Open Scope string_scope.
@@ -22,7 +24,8 @@ Theorem C15_cxx98 :
   same_cat_except [] Gen_C15_c13_default.catalogue Gen_C15_c13_cxx98.catalogue &&
   same_cat_except [] Gen_C15_c09_default.catalogue Gen_C15_c09_cxx98.catalogue &&
   same_cat_except [] Gen_C15_c14_default.catalogue Gen_C15_c14_cxx98.catalogue &&
-  same_cat_except [] Gen_C15_c19_default.catalogue Gen_C15_c19_cxx98.catalogue = true.
+  same_cat_except [] Gen_C15_c19_default.catalogue Gen_C15_c19_cxx98.catalogue &&
+  same_cat_except [] Gen_C15_ctor_default.catalogue Gen_C15_ctor_cxx98.catalogue = true.
 Proof. vm_compute. reflexivity. Qed.
 (* -DGLM_FORCE_CXX03 *)
 Theorem C15_cxx03 :
@@ -32,7 +35,8 @@ Theorem C15_cxx03 :
   same_cat_except [] Gen_C15_c13_default.catalogue Gen_C15_c13_cxx03.catalogue &&
   same_cat_except [] Gen_C15_c09_default.catalogue Gen_C15_c09_cxx03.catalogue &&
   same_cat_except [] Gen_C15_c14_default.catalogue Gen_C15_c14_cxx03.catalogue &&
-  same_cat_except [] Gen_C15_c19_default.catalogue Gen_C15_c19_cxx03.catalogue = true.
+  same_cat_except [] Gen_C15_c19_default.catalogue Gen_C15_c19_cxx03.catalogue &&
+  same_cat_except [] Gen_C15_ctor_default.catalogue Gen_C15_ctor_cxx03.catalogue = true.
 Proof. vm_compute. reflexivity. Qed.
 (* -DGLM_FORCE_CXX11 *)
 Theorem C15_cxx11 :
@@ -42,7 +46,8 @@ Theorem C15_cxx11 :
   same_cat_except [] Gen_C15_c13_default.catalogue Gen_C15_c13_cxx11.catalogue &&
   same_cat_except [] Gen_C15_c09_default.catalogue Gen_C15_c09_cxx11.catalogue &&
   same_cat_except [] Gen_C15_c14_default.catalogue Gen_C15_c14_cxx11.catalogue &&
-  same_cat_except [] Gen_C15_c19_default.catalogue Gen_C15_c19_cxx11.catalogue = true.
+  same_cat_except [] Gen_C15_c19_default.catalogue Gen_C15_c19_cxx11.catalogue &&
+  same_cat_except [] Gen_C15_ctor_default.catalogue Gen_C15_ctor_cxx11.catalogue = true.
 Proof. vm_compute. reflexivity. Qed.
 (* -DGLM_FORCE_CXX14 *)
 Theorem C15_cxx14 :
@@ -52,7 +57,8 @@ Theorem C15_cxx14 :
   same_cat_except [] Gen_C15_c13_default.catalogue Gen_C15_c13_cxx14.catalogue &&
   same_cat_except [] Gen_C15_c09_default.catalogue Gen_C15_c09_cxx14.catalogue &&
   same_cat_except [] Gen_C15_c14_default.catalogue Gen_C15_c14_cxx14.catalogue &&
-  same_cat_except [] Gen_C15_c19_default.catalogue Gen_C15_c19_cxx14.catalogue = true.
+  same_cat_except [] Gen_C15_c19_default.catalogue Gen_C15_c19_cxx14.catalogue &&
+  same_cat_except [] Gen_C15_ctor_default.catalogue Gen_C15_ctor_cxx14.catalogue = true.
 Proof. vm_compute. reflexivity. Qed.
 (* -std=gnu++11 *)
 Theorem C15_std11 :
@@ -62,7 +68,8 @@ Theorem C15_std11 :
   same_cat_except [] Gen_C15_c13_default.catalogue Gen_C15_c13_std11.catalogue &&
   same_cat_except [] Gen_C15_c09_default.catalogue Gen_C15_c09_std11.catalogue &&
   same_cat_except [] Gen_C15_c14_default.catalogue Gen_C15_c14_std11.catalogue &&
-  same_cat_except [] Gen_C15_c19_default.catalogue Gen_C15_c19_std11.catalogue = true.
+  same_cat_except [] Gen_C15_c19_default.catalogue Gen_C15_c19_std11.catalogue &&
+  same_cat_except [] Gen_C15_ctor_default.catalogue Gen_C15_ctor_std11.catalogue = true.
 Proof. vm_compute. reflexivity. Qed.
 (* -std=gnu++14 *)
 Theorem C15_std14 :
@@ -72,7 +79,8 @@ Theorem C15_std14 :
   same_cat_except [] Gen_C15_c13_default.catalogue Gen_C15_c13_std14.catalogue &&
   same_cat_except [] Gen_C15_c09_default.catalogue Gen_C15_c09_std14.catalogue &&
   same_cat_except [] Gen_C15_c14_default.catalogue Gen_C15_c14_std14.catalogue &&
-  same_cat_except [] Gen_C15_c19_default.catalogue Gen_C15_c19_std14.catalogue = true.
+  same_cat_except [] Gen_C15_c19_default.catalogue Gen_C15_c19_std14.catalogue &&
+  same_cat_except [] Gen_C15_ctor_default.catalogue Gen_C15_ctor_std14.catalogue = true.
 Proof. vm_compute. reflexivity. Qed.
 (* -DGLM_FORCE_INLINE *)
 Theorem C15_inline :
@@ -82,7 +90,8 @@ Theorem C15_inline :
   same_cat_except [] Gen_C15_c13_default.catalogue Gen_C15_c13_inline.catalogue &&
   same_cat_except [] Gen_C15_c09_default.catalogue Gen_C15_c09_inline.catalogue &&
   same_cat_except [] Gen_C15_c14_default.catalogue Gen_C15_c14_inline.catalogue &&
-  same_cat_except [] Gen_C15_c19_default.catalogue Gen_C15_c19_inline.catalogue = true.
+  same_cat_except [] Gen_C15_c19_default.catalogue Gen_C15_c19_inline.catalogue &&
+  same_cat_except [] Gen_C15_ctor_default.catalogue Gen_C15_ctor_inline.catalogue = true.
 Proof. vm_compute. reflexivity. Qed.
 (* -DGLM_FORCE_EXPLICIT_CTOR *)
 Theorem C15_explicit_ctor :
@@ -92,7 +101,8 @@ Theorem C15_explicit_ctor :
   same_cat_except [] Gen_C15_c13_default.catalogue Gen_C15_c13_explicit_ctor.catalogue &&
   same_cat_except [] Gen_C15_c09_default.catalogue Gen_C15_c09_explicit_ctor.catalogue &&
   same_cat_except [] Gen_C15_c14_default.catalogue Gen_C15_c14_explicit_ctor.catalogue &&
-  same_cat_except [] Gen_C15_c19_default.catalogue Gen_C15_c19_explicit_ctor.catalogue = true.
+  same_cat_except [] Gen_C15_c19_default.catalogue Gen_C15_c19_explicit_ctor.catalogue &&
+  same_cat_except [] Gen_C15_ctor_default.catalogue Gen_C15_ctor_explicit_ctor.catalogue = true.
 Proof. vm_compute. reflexivity. Qed.
 (* -DGLM_FORCE_CTOR_INIT *)
 Theorem C15_ctor_init :
@@ -102,7 +112,8 @@ Theorem C15_ctor_init :
   same_cat_except [] Gen_C15_c13_default.catalogue Gen_C15_c13_ctor_init.catalogue &&
   same_cat_except [] Gen_C15_c09_default.catalogue Gen_C15_c09_ctor_init.catalogue &&
   same_cat_except [] Gen_C15_c14_default.catalogue Gen_C15_c14_ctor_init.catalogue &&
-  same_cat_except [] Gen_C15_c19_default.catalogue Gen_C15_c19_ctor_init.catalogue = true.
+  same_cat_except [] Gen_C15_c19_default.catalogue Gen_C15_c19_ctor_init.catalogue &&
+  same_cat_except [] Gen_C15_ctor_default.catalogue Gen_C15_ctor_ctor_init.catalogue = true.
 Proof. vm_compute. reflexivity. Qed.
 (* -DGLM_FORCE_SIZE_T_LENGTH *)
 Theorem C15_size_t_length :
@@ -112,7 +123,8 @@ Theorem C15_size_t_length :
   same_cat_except [] Gen_C15_c13_default.catalogue Gen_C15_c13_size_t_length.catalogue &&
   same_cat_except [] Gen_C15_c09_default.catalogue Gen_C15_c09_size_t_length.catalogue &&
   same_cat_except [] Gen_C15_c14_default.catalogue Gen_C15_c14_size_t_length.catalogue &&
-  same_cat_except [] Gen_C15_c19_default.catalogue Gen_C15_c19_size_t_length.catalogue = true.
+  same_cat_except [] Gen_C15_c19_default.catalogue Gen_C15_c19_size_t_length.catalogue &&
+  same_cat_except [] Gen_C15_ctor_default.catalogue Gen_C15_ctor_size_t_length.catalogue = true.
 Proof. vm_compute. reflexivity. Qed.
 (* -DGLM_FORCE_XYZW_ONLY *)
 Theorem C15_xyzw_only :
@@ -122,7 +134,8 @@ Theorem C15_xyzw_only :
   same_cat_except [] Gen_C15_c13_default.catalogue Gen_C15_c13_xyzw_only.catalogue &&
   same_cat_except [] Gen_C15_c09_default.catalogue Gen_C15_c09_xyzw_only.catalogue &&
   same_cat_except [] Gen_C15_c14_default.catalogue Gen_C15_c14_xyzw_only.catalogue &&
-  same_cat_except [] Gen_C15_c19_default.catalogue Gen_C15_c19_xyzw_only.catalogue = true.
+  same_cat_except [] Gen_C15_c19_default.catalogue Gen_C15_c19_xyzw_only.catalogue &&
+  same_cat_except [] Gen_C15_ctor_default.catalogue Gen_C15_ctor_xyzw_only.catalogue = true.
 Proof. vm_compute. reflexivity. Qed.
 (* -DGLM_FORCE_SWIZZLE *)
 Theorem C15_swizzle :
@@ -132,7 +145,8 @@ Theorem C15_swizzle :
   same_cat_except [] Gen_C15_c13_default.catalogue Gen_C15_c13_swizzle.catalogue &&
   same_cat_except [] Gen_C15_c09_default.catalogue Gen_C15_c09_swizzle.catalogue &&
   same_cat_except [] Gen_C15_c14_default.catalogue Gen_C15_c14_swizzle.catalogue &&
-  same_cat_except [] Gen_C15_c19_default.catalogue Gen_C15_c19_swizzle.catalogue = true.
+  same_cat_except [] Gen_C15_c19_default.catalogue Gen_C15_c19_swizzle.catalogue &&
+  same_cat_except [] Gen_C15_ctor_default.catalogue Gen_C15_ctor_swizzle.catalogue = true.
 Proof. vm_compute. reflexivity. Qed.
 (* -DGLM_FORCE_UNRESTRICTED_GENTYPE *)
 Theorem C15_unrestricted :
@@ -142,7 +156,8 @@ Theorem C15_unrestricted :
   same_cat_except [] Gen_C15_c13_default.catalogue Gen_C15_c13_unrestricted.catalogue &&
   same_cat_except [] Gen_C15_c09_default.catalogue Gen_C15_c09_unrestricted.catalogue &&
   same_cat_except [] Gen_C15_c14_default.catalogue Gen_C15_c14_unrestricted.catalogue &&
-  same_cat_except [] Gen_C15_c19_default.catalogue Gen_C15_c19_unrestricted.catalogue = true.
+  same_cat_except [] Gen_C15_c19_default.catalogue Gen_C15_c19_unrestricted.catalogue &&
+  same_cat_except [] Gen_C15_ctor_default.catalogue Gen_C15_ctor_unrestricted.catalogue = true.
 Proof. vm_compute. reflexivity. Qed.
 (* -DGLM_FORCE_QUAT_DATA_WXYZ *)
 Theorem C15_quat_wxyz :
@@ -152,7 +167,8 @@ Theorem C15_quat_wxyz :
   same_cat_except [] Gen_C15_c13_default.catalogue Gen_C15_c13_quat_wxyz.catalogue &&
   same_cat_except [] Gen_C15_c09_default.catalogue Gen_C15_c09_quat_wxyz.catalogue &&
   same_cat_except [] Gen_C15_c14_default.catalogue Gen_C15_c14_quat_wxyz.catalogue &&
-  same_cat_except [] Gen_C15_c19_default.catalogue Gen_C15_c19_quat_wxyz.catalogue = true.
+  same_cat_except [] Gen_C15_c19_default.catalogue Gen_C15_c19_quat_wxyz.catalogue &&
+  same_cat_except [] Gen_C15_ctor_default.catalogue Gen_C15_ctor_quat_wxyz.catalogue = true.
 Proof. vm_compute. reflexivity. Qed.
 (* -DGLM_FORCE_ALIGNED_GENTYPES -D_MSC_EXTENSIONS *)
 Theorem C15_aligned :
@@ -162,7 +178,8 @@ Theorem C15_aligned :
   same_cat_except [] Gen_C15_c13_default.catalogue Gen_C15_c13_aligned.catalogue &&
   same_cat_except [] Gen_C15_c09_default.catalogue Gen_C15_c09_aligned.catalogue &&
   same_cat_except [] Gen_C15_c14_default.catalogue Gen_C15_c14_aligned.catalogue &&
-  same_cat_except [] Gen_C15_c19_default.catalogue Gen_C15_c19_aligned.catalogue = true.
+  same_cat_except [] Gen_C15_c19_default.catalogue Gen_C15_c19_aligned.catalogue &&
+  same_cat_except [] Gen_C15_ctor_default.catalogue Gen_C15_ctor_aligned.catalogue = true.
 Proof. vm_compute. reflexivity. Qed.
 (* -DGLM_FORCE_COMPILER_UNKNOWN *)
 Theorem C15_compiler_unknown :
@@ -172,7 +189,8 @@ Theorem C15_compiler_unknown :
   same_cat_except [] Gen_C15_c13_default.catalogue Gen_C15_c13_compiler_unknown.catalogue &&
   same_cat_except [] Gen_C15_c09_default.catalogue Gen_C15_c09_compiler_unknown.catalogue &&
   same_cat_except [] Gen_C15_c14_default.catalogue Gen_C15_c14_compiler_unknown.catalogue &&
-  same_cat_except [] Gen_C15_c19_default.catalogue Gen_C15_c19_compiler_unknown.catalogue = true.
+  same_cat_except [] Gen_C15_c19_default.catalogue Gen_C15_c19_compiler_unknown.catalogue &&
+  same_cat_except [] Gen_C15_ctor_default.catalogue Gen_C15_ctor_compiler_unknown.catalogue = true.
 Proof. vm_compute. reflexivity. Qed.
 (* -DGLM_FORCE_PLATFORM_UNKNOWN *)
 Theorem C15_platform_unknown :
@@ -182,7 +200,8 @@ Theorem C15_platform_unknown :
   same_cat_except [] Gen_C15_c13_default.catalogue Gen_C15_c13_platform_unknown.catalogue &&
   same_cat_except [] Gen_C15_c09_default.catalogue Gen_C15_c09_platform_unknown.catalogue &&
   same_cat_except [] Gen_C15_c14_default.catalogue Gen_C15_c14_platform_unknown.catalogue &&
-  same_cat_except [] Gen_C15_c19_default.catalogue Gen_C15_c19_platform_unknown.catalogue = true.
+  same_cat_except [] Gen_C15_c19_default.catalogue Gen_C15_c19_platform_unknown.catalogue &&
+  same_cat_except [] Gen_C15_ctor_default.catalogue Gen_C15_ctor_platform_unknown.catalogue = true.
 Proof. vm_compute. reflexivity. Qed.
 (* -DGLM_FORCE_ARCH_UNKNOWN *)
 Theorem C15_arch_unknown :
@@ -192,7 +211,8 @@ Theorem C15_arch_unknown :
   same_cat_except [] Gen_C15_c13_default.catalogue Gen_C15_c13_arch_unknown.catalogue &&
   same_cat_except [] Gen_C15_c09_default.catalogue Gen_C15_c09_arch_unknown.catalogue &&
   same_cat_except [] Gen_C15_c14_default.catalogue Gen_C15_c14_arch_unknown.catalogue &&
-  same_cat_except [] Gen_C15_c19_default.catalogue Gen_C15_c19_arch_unknown.catalogue = true.
+  same_cat_except [] Gen_C15_c19_default.catalogue Gen_C15_c19_arch_unknown.catalogue &&
+  same_cat_except [] Gen_C15_ctor_default.catalogue Gen_C15_ctor_arch_unknown.catalogue = true.
 Proof. vm_compute. reflexivity. Qed.
 (* -DGLM_FORCE_PURE *)
 Theorem C15_pure :
@@ -202,7 +222,8 @@ Theorem C15_pure :
   same_cat_except [] Gen_C15_c13_default.catalogue Gen_C15_c13_pure.catalogue &&
   same_cat_except [] Gen_C15_c09_default.catalogue Gen_C15_c09_pure.catalogue &&
   same_cat_except [] Gen_C15_c14_default.catalogue Gen_C15_c14_pure.catalogue &&
-  same_cat_except [] Gen_C15_c19_default.catalogue Gen_C15_c19_pure.catalogue = true.
+  same_cat_except [] Gen_C15_c19_default.catalogue Gen_C15_c19_pure.catalogue &&
+  same_cat_except [] Gen_C15_ctor_default.catalogue Gen_C15_ctor_pure.catalogue = true.
 Proof. vm_compute. reflexivity. Qed.
 (* -DGLM_FORCE_SILENT_WARNINGS *)
 Theorem C15_silent :
@@ -212,7 +233,8 @@ Theorem C15_silent :
   same_cat_except [] Gen_C15_c13_default.catalogue Gen_C15_c13_silent.catalogue &&
   same_cat_except [] Gen_C15_c09_default.catalogue Gen_C15_c09_silent.catalogue &&
   same_cat_except [] Gen_C15_c14_default.catalogue Gen_C15_c14_silent.catalogue &&
-  same_cat_except [] Gen_C15_c19_default.catalogue Gen_C15_c19_silent.catalogue = true.
+  same_cat_except [] Gen_C15_c19_default.catalogue Gen_C15_c19_silent.catalogue &&
+  same_cat_except [] Gen_C15_ctor_default.catalogue Gen_C15_ctor_silent.catalogue = true.
 Proof. vm_compute. reflexivity. Qed.
 
 (* the fallback bodies of GLM_FORCE_CXX98 that can be traced have the meaning of the default bodies *)
